@@ -57,6 +57,13 @@ def model_check(ctx, thorough):
         sens[inv] = r.violated
         if not r.violated:
             raise core.Inconclusive("Pending.tla with the hazard switch no longer violates %s" % inv)
+    # the lease of a stream id, seen from both ends of the connection (StreamLease.tla): an answer is handed only to the request
+    # it was produced for; giving an id back when a caller stops waiting (hazard switch) breaks that
+    ctx.tlc_must_pass("StreamLease", "StreamLease.cfg", timeout=600, name="stream-lease-mc")
+    r = ctx.tlc("StreamLease", "StreamLease_hazard.cfg", timeout=600, count=False, name="stream-lease-sensitivity")
+    sens["StreamLease.OwnAnswerOnly"] = r.violated
+    if not r.violated:
+        raise core.Inconclusive("StreamLease.tla with ReleaseOnGiveUp no longer violates OwnAnswerOnly")
     ctx.notes["pending_model_sensitivity"] = sens
 
 
